@@ -75,6 +75,12 @@ Theorem fmt_order : forall p c t1 t2 rd1 rd2 x1 x2, in_range t1 = true -> in_ran
 Proof. exact fmt_order_lemma. Qed.
 Print Assumptions fmt_order.
 
+(* distinct truncated instants are never written as the same text *)
+Theorem fmt_injective : forall p c t1 t2, in_range t1 = true -> in_range t2 = true ->
+  format Pad4 p c t1 = format Pad4 p c t2 -> floor_to (sp p) (sc c) t1 = floor_to (sp p) (sc c) t2.
+Proof. exact fmt_injective_lemma. Qed.
+Print Assumptions fmt_injective.
+
 (* inputs of parse_into_datetime / TimestampProperty.clean: what is written is the text of the
    input instant converted to UTC (so all of the above applies to it)        *)
 Theorem write_naive : forall nm p c l, in_range l = true ->
